@@ -43,7 +43,8 @@ class SimTransport(object):
 
     def recv_into(self, buf, nbytes=0):
         self._absorb()
-        n = nbytes or len(buf)
+        # like ssl.SSLSocket.recv_into: a request larger than the buffer is cut down to the buffer's size
+        n = min(nbytes or len(buf), len(buf))
         if self.tls:
             if not self.pend:
                 if not self.kernel:
@@ -144,7 +145,7 @@ def gen(rnd, tls):
     expected = []     # (availability tick of the message's last byte, event)
     for b in range(rnd.choice([1, 2, 3])):
         t += rnd.choice([1, 500, 61 * 1024, 3 * 60 * 1024])
-        kind = rnd.choice(["many-small", "around-16k", "around-64k", "spanning", "mixed"])
+        kind = rnd.choice(["many-small", "around-16k", "around-64k", "spanning", "mixed", "huge"])
         frames = []
         if kind == "many-small":
             for i in range(rnd.choice([2, 50, 1000, 5000])):
@@ -155,6 +156,8 @@ def gen(rnd, tls):
             frames = [(2, scen.rand_bytes(rnd, rnd.choice([16384 - 4 - 1, 16384 - 4, 16384 - 4 + 1, 16384, 16385, 2 * 16384 - 3]))), (9, b"after")]
         elif kind == "around-64k":
             frames = [(2, scen.rand_bytes(rnd, rnd.choice([65536 - 10 - 1, 65536 - 10, 65536 - 9, 65536, 65537, 100000]))), (1, b"tail"), (9, b"")]
+        elif kind == "huge":
+            frames = [(2, scen.rand_bytes(rnd, rnd.choice([131072 + 5, 200000, 300000]))), (1, b"t"), (9, b"h")]
         elif kind == "spanning":
             frames = [(1, b"a" * 20000), (2, b"b" * 20000), (1, b"c" * 30000), (9, b"p")]
         else:
@@ -206,7 +209,7 @@ def _make_cert(tmp):
     return key, crt
 
 
-def real_run(tls, nsmall, big, tmp):
+def real_run(tls, nsmall, big, tmp, tail_split=False):
     """a tiny server sends the handshake reply and one burst in a single sendall; returns (n delivered, seconds)"""
     import base64
     import hashlib
@@ -231,7 +234,15 @@ def real_run(tls, nsmall, big, tmp):
                 req += c.recv(4096)
             key = [l.split(b":", 1)[1].strip() for l in req.split(b"\r\n") if l.lower().startswith(b"sec-websocket-key")][0]
             acc = base64.b64encode(hashlib.sha1(key + b"258EAFA5-E914-47DA-95CA-C5AB0DC85B11").digest())
-            c.sendall(ref6455.handshake_response(acc) + burst)
+            if tail_split:
+                # the last byte of the burst travels in a segment of its own, after the rest has been consumed
+                c.sendall(ref6455.handshake_response(acc))
+                _time.sleep(0.3)
+                c.sendall(burst[:-1])
+                _time.sleep(0.5)
+                c.sendall(burst[-1:])
+            else:
+                c.sendall(ref6455.handshake_response(acc) + burst)
             done.wait(20)
             c.close()
         except Exception:
@@ -294,7 +305,7 @@ def run(rep, info, model, tier, seed):
     rep.families.append(dict(name="C18:virtual-clock-bursts", cases=n, disagreements=dis,
                              rule="real session loop + REAL SelectorBase.wait over a simulated kernel queue and TLS pending buffer on the virtual clock with poll=60 s: bursts around 16 KiB records and the 64 KiB receive buffer (+-1), 2-5000 small frames per burst, messages spanning records; every message and automatic pong must appear at the very tick its last byte became available"))
     # real sockets
-    nreal = 2 if tier == "quick" else 12
+    nreal = 2 if tier == "quick" else 12   # per transport; odd runs put the last byte of the burst in its own segment
     tmp = tempfile.mkdtemp(prefix="c18-", dir=core.BUILD)
     try:
         tlsfiles = None
@@ -306,9 +317,14 @@ def run(rep, info, model, tier, seed):
             for tls in (None, tlsfiles):
                 if tls is None and i % 1 == 0 or tls:
                     nsmall, big = rnd.choice([(2000, 200000), (20000, 70000), (500, 16384 * 3)])
-                    cnt, dt, got_end = real_run(tls, nsmall, big, tmp)
-                    rep.add_case(("real", bool(tls), nsmall, big, i))
+                    split = (i % 2 == 1)
+                    cnt, dt, got_end = real_run(tls, nsmall, big, tmp, tail_split=split)
+                    rep.add_case(("real", bool(tls), nsmall, big, i, split))
+                    rep.count("real_tail_byte_in_own_segment", split)
                     rep.count("real_transport", "tls" if tls else "tcp")
+                    if got_end and cnt == nsmall + 2 and dt > 6.0:
+                        rep.violation("real %s loopback: the last message of a burst was delivered only after %.1f s (poll=60): the loop sat on available data until unrelated activity (the peer closing) woke it" % ("TLS" if tls else "TCP", dt),
+                                      scenario=dict(kind="real", tls=bool(tls), nsmall=nsmall, big=big, tail_split=split), family="C18:real-loopback")
                     if not got_end or cnt != nsmall + 2:
                         rep.violation("real %s loopback: only %d of %d messages of one burst were delivered within %.1f s with poll=60 (the loop stalled on buffered data)" % ("TLS" if tls else "TCP", cnt, nsmall + 2, dt),
                                       scenario=dict(kind="real", tls=bool(tls), nsmall=nsmall, big=big), family="C18:real-loopback")
